@@ -38,7 +38,7 @@ struct Dog : Animal {
         g_member_this = this;
         return 701;
     }
-    static inline const void* g_member_this = nullptr;
+    static inline thread_local const void* g_member_this = nullptr;
 };
 struct Cat : Animal {
     int c = 3;
@@ -98,14 +98,14 @@ struct Seen {
     int vptr_bad = 0; // a virtual_ptr received by a definition does not hold
                       // its class's v-table pointer
 };
-Seen g_seen;
+thread_local Seen g_seen; // per caller thread (twsched runs callers concurrently)
 
 template<class T>
 const void* md(T& obj) {
     return dynamic_cast<const void*>(&obj);
 }
 
-int g_tw_handler_calls = 0;
+thread_local int g_tw_handler_calls = 0;
 struct TwThrow {
     int alt;
     int status;
@@ -130,7 +130,7 @@ void tw_handler(const y2::error_type& ev) {
 // static_type can be made to throw during a registration (fault injection: a
 // run-time id registry that does not know the class yet)
 
-int g_tw_throw_in = -1;
+thread_local int g_tw_throw_in = -1; // armed by the registering thread only
 struct TwRttiThrow {};
 
 template<class T, class = void>
@@ -1389,6 +1389,33 @@ struct TwExec {
         }
     }
 
+    // for every loaded method: its slot and the registered classes an
+    // argument of each virtual parameter may have
+    std::vector<std::pair<int, std::vector<std::vector<int>>>> callable() {
+        Plan plan;
+        Registry reg;
+        std::map<int, int> code_of_def;
+        snapshot(plan, reg, code_of_def);
+        Lattice L = make_lattice(plan, reg);
+        std::vector<std::pair<int, std::vector<std::vector<int>>>> out;
+        for (int mi : reg.methods) {
+            auto& m = plan.recs[mi];
+            std::vector<std::vector<int>> cand;
+            bool ok = true;
+            for (int pc : m.vp) {
+                std::vector<int> cs;
+                for (int cls = 0; cls < NCLS; ++cls)
+                    if (L.reg[cls] && L.le(cls, pc))
+                        cs.push_back(cls);
+                ok = ok && !cs.empty();
+                cand.push_back(cs);
+            }
+            if (ok)
+                out.push_back({m.slot, cand});
+        }
+        return out;
+    }
+
     void check() {
         Plan plan;
         Registry reg;
@@ -1803,6 +1830,11 @@ struct TwDriverBase {
     virtual std::vector<std::string> verdicts() = 0;
     virtual std::uint64_t calls() = 0;
     virtual bool cleanup() = 0; // false: residue
+    virtual bool clean() = 0;   // the last update covers every registration
+    virtual std::vector<std::pair<int, std::vector<std::vector<int>>>> callable() = 0;
+    // one real call, summarised: "D<code>n<next>", "E<alt>/<status>", with
+    // "!obj" / "!vptr" marks
+    virtual std::string call(int method, const std::vector<int>& tuple, int route) = 0;
 };
 
 template<class P>
@@ -1826,6 +1858,25 @@ struct TwDriver : TwDriverBase {
     bool cleanup() override {
         ex.cleanup();
         return P::classes.empty() && P::methods.empty();
+    }
+    bool clean() override {
+        return ex.clean;
+    }
+    std::vector<std::pair<int, std::vector<std::vector<int>>>> callable() override {
+        return ex.callable();
+    }
+    std::string call(int method, const std::vector<int>& tuple, int route) override {
+        auto r = Lab<P>::call(method, tuple, route);
+        std::string obs = r.threw
+            ? "E" + std::to_string(r.alt) + "/" + std::to_string(r.status)
+            : "D" + std::to_string(r.seen.code) + "n" + std::to_string(r.seen.next_code) +
+                "r" + std::to_string(r.ret);
+        for (int i = 0; i < r.seen.n; ++i)
+            if (r.seen.most_derived[i] != r.expect_md[i])
+                obs += "!obj";
+        if (r.seen.vptr_bad)
+            obs += "!vptr";
+        return obs;
     }
 };
 
